@@ -33,11 +33,62 @@ def strip(n):
     return n
 
 
+def _has_call(n):
+    if not isinstance(n, dict):
+        return False
+    if n.get("kind") == "CallExpr":
+        return True
+    return any(_has_call(c) for c in n.get("inner", []))
+
+
+def _returns(n, acc):
+    if isinstance(n, dict):
+        if n.get("kind") == "ReturnStmt":
+            acc.append(n)
+        for c in n.get("inner", []):
+            _returns(c, acc)
+    return acc
+
+
 class Fn:
-    def __init__(self, node):
+    """statics: name -> FunctionDecl of the file-local `static` functions of the translation unit.  When given, a call of such a helper is
+    INLINED (parameters replaced by the caller's argument expressions) wherever that is a plain syntactic operation: the helper's only
+    `return` is its last statement and the arguments contain no call.  "Extract a static helper" / "inline a helper" refactorings then
+    leave the skeleton unchanged.  subst: parameter name -> already translated argument expression (inside an inlined helper)."""
+    def __init__(self, node, statics=None, subst=None, depth=0):
         self.node = node
         self.params = [c["name"] for c in node.get("inner", []) if c.get("kind") == "ParmVarDecl" and "name" in c]
         self.body = [c for c in node.get("inner", []) if c.get("kind") == "CompoundStmt"][0]
+        self.statics = statics or {}
+        self.subst = subst or {}
+        self.depth = depth
+
+    def _inlinable(self, call):
+        """-> (helper Fn bound to the arguments, leading statements, returned expression node or None) or None"""
+        if not self.statics or self.depth >= 3 or call.get("kind") != "CallExpr":
+            return None
+        inner = call.get("inner", [])
+        callee = strip(inner[0])
+        if callee.get("kind") != "DeclRefExpr" or callee.get("referencedDecl", {}).get("kind") != "FunctionDecl":
+            return None
+        name = callee["referencedDecl"].get("name")
+        node = self.statics.get(name)
+        if node is None or node is self.node or any(_has_call(a) for a in inner[1:]):
+            return None
+        h = Fn(node, self.statics, None, self.depth + 1)
+        if len(h.params) != len(inner) - 1:
+            return None
+        stmts = list(h.body.get("inner", []))
+        rets = _returns(h.body, [])
+        ret = None
+        if rets:
+            if len(rets) != 1 or not stmts or stmts[-1] is not rets[0]:
+                return None
+            ret = (rets[0].get("inner") or [None])[0]
+            stmts = stmts[:-1]
+        h.subst = dict(zip(h.params, [self.expr(a) for a in inner[1:]]))
+        h.params = []
+        return h, stmts, ret
 
     def expr(self, n):
         n = strip(n)
@@ -45,6 +96,8 @@ class Fn:
         if k == "DeclRefExpr":
             rd = n.get("referencedDecl", {})
             name = rd.get("name", "?")
+            if rd.get("kind") == "ParmVarDecl" and name in self.subst:
+                return self.subst[name]
             if rd.get("kind") == "ParmVarDecl" and name in self.params:
                 return "(XParam %d)" % self.params.index(name)
             if rd.get("kind") == "FunctionDecl":
@@ -66,6 +119,9 @@ class Fn:
         if k == "CStyleCastExpr":
             return "(XCast %s)" % self.expr(n["inner"][0])
         if k == "CallExpr":
+            inl = self._inlinable(n)
+            if inl and not inl[1] and inl[2] is not None:        # helper = { return e; }
+                return inl[0].expr(inl[2])
             inner = n.get("inner", [])
             callee = strip(inner[0])
             args = "[" + "; ".join(self.expr(a) for a in inner[1:]) + "]"
@@ -98,11 +154,63 @@ class Fn:
         if n is None:
             return "[]"
         if n.get("kind") == "CompoundStmt":
-            return "[" + ";\n ".join(self.stmt(c) for c in n.get("inner", [])) + "]"
-        return "[" + self.stmt(n) + "]"
+            items = []
+            for c in n.get("inner", []):
+                items += self.stmt_multi(c)
+            return "[" + ";\n ".join(items) + "]"
+        return "[" + "; ".join(self.stmt_multi(n)) + "]"
+
+    def stmt_multi(self, n):
+        """like stmt, but an inlined helper call is spliced into the enclosing statement list (no SSeq wrapper)"""
+        if self.statics:
+            k = n.get("kind")
+            inl, tail = None, None
+            if k == "CallExpr":
+                inl = self._inlinable(n)
+            elif k == "BinaryOperator" and n.get("opcode") == "=":
+                inl = self._inlinable(strip(n["inner"][1]))
+                if inl and inl[2] is not None and inl[1]:
+                    lhs = self.expr(n["inner"][0])
+                    tail = lambda e: "(SAssign %s %s)" % (lhs, e)
+                else:
+                    inl = None
+            elif k == "ReturnStmt" and n.get("inner"):
+                inl = self._inlinable(strip(n["inner"][0]))
+                if inl and inl[2] is not None and inl[1]:
+                    tail = lambda e: "(SReturn (Some %s))" % e
+                else:
+                    inl = None
+            if inl:
+                h, stmts, ret = inl
+                out = []
+                for c in stmts:
+                    out += h.stmt_multi(c)
+                if ret is not None and tail:
+                    out.append(tail(h.expr(ret)))
+                return out
+        return [self.stmt(n)]
+
+    def _inline_seq(self, inl, tail):
+        h, stmts, ret = inl
+        body = [h.stmt(c) for c in stmts]
+        return "(SSeq [%s])" % "; ".join(body + ([tail(h.expr(ret))] if ret is not None and tail else []))
 
     def stmt(self, n):
         k = n.get("kind")
+        if self.statics:
+            if k == "CallExpr":
+                inl = self._inlinable(n)
+                if inl:
+                    return self._inline_seq(inl, None)
+            if k == "BinaryOperator" and n.get("opcode") == "=":
+                inl = self._inlinable(strip(n["inner"][1]))
+                if inl and inl[2] is not None and inl[1]:
+                    lhs = self.expr(n["inner"][0])
+                    return self._inline_seq(inl, lambda e: "(SAssign %s %s)" % (lhs, e))
+            if k == "ReturnStmt" and n.get("inner"):
+                inl = self._inlinable(strip(n["inner"][0]))
+                if inl and inl[2] is not None and inl[1]:
+                    return self._inline_seq(inl, lambda e: "(SReturn (Some %s))" % e)
         if k == "DeclStmt":
             out = []
             for d in n.get("inner", []):
@@ -158,15 +266,16 @@ class Fn:
         return "(SOther %s)" % q(k or "?")
 
 
-def skeleton(tu, name):
+def skeleton(tu, name, inline_static=False):
     fns = functions(tu)
     if name not in fns:
         return None, None
-    f = Fn(fns[name])
+    statics = {k: v for k, v in fns.items() if v.get("storageClass") == "static"} if inline_static else None
+    f = Fn(fns[name], statics)
     return len(f.params), f.stmts(f.body)
 
 
-def emit_skeletons(run, genname, items):
+def emit_skeletons(run, genname, items, inline_static=False):
     """items: list of (coq_ident, relpath, function name).  Writes Gen_<genname>.v with
     Definition <ident> : fn_skel := {| sk_nparams := n; sk_body := [...] |}.  Missing function -> body [SOther "missing"]."""
     cache = {}
@@ -175,7 +284,7 @@ def emit_skeletons(run, genname, items):
     for ident, rel, fn in items:
         if rel not in cache:
             cache[rel] = clang_ast(run, rel)
-        n, body = skeleton(cache[rel], fn)
+        n, body = skeleton(cache[rel], fn, inline_static)
         if body is None:
             run.notes.append("skeleton translator: function %s not found in %s" % (fn, rel))
             n, body = 0, '[SOther "missing function"]'
